@@ -187,6 +187,10 @@ class PyflybyLogger(Logger):
             except KeyError:
                 raise ValueError("Bad log level %r" % (level,))
         Logger.setLevel(self, level_num)
+        # This logger is not registered with logging's manager, so
+        # Manager._clear_cache() does not reach it: drop our own
+        # isEnabledFor() cache, else the old level keeps deciding.
+        getattr(self, "_cache", {}).clear()
 
     @property
     def debug_enabled(self):
